@@ -45,6 +45,10 @@ CLAIMED = {
    text="MMCS-only pair: native MerkleTreeMmcs commit/open/verify versus in-circuit verify_batch_circuit on seeded matrix batches (equal and mixed heights, widths not aligned to the rate, cap height 0-2); honest openings at every index, then every opened value, sibling digest word, index bit and cap entry word altered one at a time; verdicts must agree.",
    note="Arity-2 trees, non-hiding, base-field leaves; U-KB4 and U-BB4.",
    technique="deterministic simulation with exhaustive single-fault enumeration on Merkle openings, native verifier as oracle"),
+ "C15": dict(level="fault_enumeration", ref="DESIGN §5 C15",
+   text="Short, torn and lost parts of a message: every sequence node of the serialized proof is shortened, lengthened, emptied or made ragged, every optional part is flipped, every usize leaf is set to +1, -1, 0 and 2^62; each mutant that still deserializes is handed to the verification-circuit builder in a crash-isolated, memory-limited worker process; a panic or abort is a violation, and if the builder returns Ok the built circuit is run on the mutant and must agree with the native verdict on the mutant (a circuit that checks less than the native verifier is a violation).",
+   note="Single structural faults, exhaustive per sampled shape (uni-STARK Fibonacci and circuit batch proofs, FRI parameter swarm capped at 2 queries). Worker memory limit 8 GiB. Known findings (query count not in verifier params; 2^62 counts) in known_findings.json; the other panic sites found were repaired (see fixed entries).",
+   technique="deterministic simulation with structural message faults, crash-isolated workers, native verdict as oracle"),
  "C16": dict(level="fault_enumeration", ref="DESIGN §5 C16",
    text="Population of honest proofs (primitive-only; with Poseidon2 and recompose tables) and invalid-trace proofs made by the byzantine prover; the transport sets every metadata field outside `proof` to every value of a small well-formed set (plus option flips, string swaps, list swap/drop/duplicate, sampled pairs) and round-trips every member through postcard and JSON; no faulted invalid-trace proof may be accepted, metadata contradicting the verifier's field parameters must be rejected, round trips must preserve verdict and content.",
    note="A panicking native verifier counts as a rejection for this property (counted in the evidence, thousands of cases, mostly stark_common / packing fields).",
